@@ -771,6 +771,215 @@ def decide_chevron(ps, ret, op):
         return 's(%r, use_modifiers_posoargs=%s) gave %s, expected %s' % (text, op, got, exp)
     return None
 
+
+# ---------------------------------------------------------------- (f) rich default / annotation texts
+# Defaults and annotations that are not integer literals: texts ending in ')'
+# (the outer parentheses of str(sig) must be removed exactly once), unhashable
+# values (lists, dicts, sets: the signature itself is then unhashable), classes.
+# Only the real code is exercised here (the token model interns texts as numbers).
+# A rich signature: [[name, kind, default_text|None, annotation_text|None], ...]
+RICH_DEFAULTS = ['()', '[]', 'frozenset()', '{}', 'set()', '[1]', "'x'", 'dict()', '(1)']
+RICH_ANNS = ['[1]', 'int', '()', '{}', 'tuple()', "'t'"]
+RICH_RETS = [None, 'int', '()', '[1]', 'frozenset()']
+
+
+def rich_build(ps, j):
+    """ps: a parameter list of the universe (name id, kind, has-default);
+    j selects the texts."""
+    n = len(ps)
+    mode = j % 3
+    rs = []
+    for i, p in enumerate(ps):
+        de = RICH_DEFAULTS[(j + i) % len(RICH_DEFAULTS)] if p[2] is not None else None
+        an = None
+        if mode == 1 or (mode == 2 and i == n - 1):
+            an = RICH_ANNS[(j + 2 * i) % len(RICH_ANNS)]
+        rs.append([nname(p[0]), p[1], de, an])
+    return rs, RICH_RETS[j % len(RICH_RETS)]
+
+
+def rich_text(rs, annotations=True):
+    out = []
+    prev = None
+    for name, k, de, an in rs:
+        if prev == 'PO' and k != 'PO':
+            out.append('/')
+        if k == 'KO' and prev not in ('VP', 'KO'):
+            out.append('*')
+        t = {'VP': '*', 'VK': '**'}.get(k, '') + name
+        if an is not None and annotations:
+            t += ': %s' % an
+            if de is not None:
+                t += ' = %s' % de
+        elif de is not None:
+            t += '=%s' % de
+        out.append(t)
+        prev = k
+    if prev == 'PO':
+        out.append('/')
+    return ', '.join(out)
+
+
+def rich_show(rs, ret=None):
+    return '(%s)%s' % (rich_text(rs), '' if ret is None else ' -> %s' % ret)
+
+
+def rich_real_def(rs):
+    body = ', '.join('%r: %s' % (r[0], r[0]) for r in rs)
+    ns = {}
+    exec('def func(%s):\n    return {%s}\n' % (rich_text(rs, annotations=False), body), ns)
+    return ns['func']
+
+
+def rich_expected(rs, ret=None):
+    params = []
+    for name, k, de, an in rs:
+        av = P.empty if an is None else eval(an)
+        params.append(S.UpgradedParameter(
+            name, KINDS[k], default=P.empty if de is None else eval(de), annotation=av,
+            upgraded_annotation=S.EmptyAnnotation if an is None else S._PreEvaluatedAnnotation(av)))
+    rv = P.empty if ret is None else eval(ret)
+    return S.UpgradedSignature(
+        params, return_annotation=rv,
+        upgraded_return_annotation=S.EmptyAnnotation if ret is None else S._PreEvaluatedAnnotation(rv))
+
+
+def rich_describe(sig):
+    return ([(p.name, str(p.kind), repr(p.default), repr(p.annotation)) for p in sig.parameters.values()],
+            repr(sig.return_annotation))
+
+
+def rich_ps(rs):
+    return [(nid(r[0]), r[1], None if r[2] is None else 1, None) for r in rs]
+
+
+def rich_calls(rs, rng, many):
+    ps = rich_ps(rs)
+    if many:
+        return gen_calls(ps, rng, 12)
+    return full_calls(ps)
+
+
+def decide_rich(rs, ret, calls):
+    """All decisions for one rich signature; returns a list of (key, what)."""
+    out = []
+    exp = rich_expected(rs, ret)
+    here = rich_show(rs, ret)
+    ref = rich_real_def(rs)
+    # (a) the string form read back
+    body, rtext = split_text(exp)
+    try:
+        with warnings.catch_warnings():
+            warnings.simplefilter('ignore')
+            got = support.s(body, rtext)
+        if got != exp or rich_describe(got) != rich_describe(exp):
+            out.append(('C20:roundtrip', 's(%r%s) gave %s, expected %s' % (
+                body, '' if rtext is _util.UNSET else ', %r' % rtext, got, exp)))
+    except Exception as e:  # noqa: BLE001
+        out.append(('C20:roundtrip', 's(%r%s) raised %s: %s (expected %s)' % (
+            body, '' if rtext is _util.UNSET else ', %r' % rtext, type(e).__name__, e, exp)))
+    # (a) (b) func_from_sig: same signature, same string, and the function returns its arguments by name
+    fn = None
+    try:
+        with warnings.catch_warnings():
+            warnings.simplefilter('ignore')
+            fn = support.func_from_sig(exp)
+            got = specifiers.signature(fn)
+        if got != exp or rich_describe(got) != rich_describe(exp) or str(got) != str(exp):
+            out.append(('C20:func_from_sig', 'signature(func_from_sig(%s)) is %s' % (exp, got)))
+    except Exception as e:  # noqa: BLE001
+        out.append(('C20:func_from_sig', 'func_from_sig(%s) raised %s: %s' % (exp, type(e).__name__, e)))
+    # (c) (d) the binder on this signature
+    ps = rich_ps(rs)
+    callsigs = [(tuple(a), dict(k)) for a, k in calls]
+    try:
+        with warnings.catch_warnings():
+            warnings.simplefilter('ignore')
+            valid, invalid = support.sort_callsigs(exp, callsigs)
+    except Exception as e:  # noqa: BLE001
+        valid, invalid = None, None
+        out.append(('C20:sort', 'sort_callsigs(%s, ...) raised %s: %s' % (here, type(e).__name__, e)))
+    nvalid = 0
+    bad_bind = bad_f = False
+    for args, kwargs in calls:
+        real = real_call(ref, args, kwargs)
+        call = '(*%s, **%s)' % (list(args), dict(kwargs))
+        if fn is not None and not bad_f:
+            try:
+                r1 = ('ok', fn(*args, **dict(kwargs)))
+            except TypeError as e:
+                r1 = ('err', str(e))
+            if r1[0] != real[0] or (real[0] == 'ok' and r1[1] != real[1]):
+                bad_f = True
+                out.append(('C20:func_from_sig', 'func_from_sig(%s)%s %s, a def with that signature %s' % (
+                    exp, call, 'returned %r' % (r1[1],) if r1[0] == 'ok' else 'raised TypeError',
+                    'returns %r' % (real[1],) if real[0] == 'ok' else 'raises TypeError')))
+        if collision(ps, kwargs):
+            continue
+        nvalid += real[0] == 'ok'
+        try:
+            impl = ('ok', support.bind_callsig(exp, tuple(args), dict(kwargs)))
+        except TypeError as e:
+            impl = ('err', str(e))
+        except Exception as e:  # noqa: BLE001
+            impl = ('exc', '%s: %s' % (type(e).__name__, e))
+        if not bad_bind and (impl[0] != real[0] or (impl[0] == 'ok' and impl[1] != real[1])):
+            bad_bind = True
+            out.append(('C20:bind', 'bind_callsig(%s, %s) %s but really calling def func%s%s %s' % (
+                here, call,
+                'returned %r' % (impl[1],) if impl[0] == 'ok' else 'raised %s(%s)' % ('TypeError' if impl[0] == 'err' else '', impl[1]),
+                rich_show(rs), call,
+                'returned %r' % (real[1],) if real[0] == 'ok' else 'raised TypeError(%s)' % real[1])))
+    if valid is not None:
+        ncoll = sum(1 for a, k in calls if collision(ps, k))
+        got_valid = sum(1 for v in valid if not collision(ps, list(v[1].items())))
+        if len(valid) + len(invalid) != len(calls) or got_valid != nvalid:
+            out.append(('C20:sort', 'sort_callsigs(%s, <%d calls>) returned %d valid and %d invalid; really calling the def '
+                        'accepts %d of the %d calls outside the excluded case' % (
+                            here, len(calls), len(valid), len(invalid), nvalid, len(calls) - ncoll)))
+        else:
+            for a, k, bound in valid:
+                if collision(ps, list(k.items())):
+                    continue
+                real = real_call(ref, a, list(k.items()))
+                if real[0] != 'ok' or real[1] != bound:
+                    out.append(('C20:sort', 'sort_callsigs(%s, ...) bound (*%s, **%s) to %r; the real call %s' % (
+                        here, list(a), k, bound,
+                        'returns %r' % (real[1],) if real[0] == 'ok' else 'raises TypeError')))
+                    break
+    return out
+
+
+def check_rich(ctx, rep, U2, U3):
+    rng = ctx.rng('rich')
+    shapes = list(U2)
+    shapes += rng.sample(U3, 40 if ctx.quick else 400)
+    n = 0
+    nsig = 0
+    unhashable = 0
+    for si, ps in enumerate(shapes):
+        for j in range(len(RICH_DEFAULTS)):
+            rs, ret = rich_build(ps, j)
+            if not any(r[2] is not None or r[3] is not None for r in rs) and ret is None:
+                continue
+            if ctx.quick and (si + j) % 2 and si >= 60:
+                continue
+            nsig += 1
+            many = (si + j) % 4 == 0
+            calls = rich_calls(rs, rng, many)
+            try:
+                hash(rich_expected(rs, ret))
+            except TypeError:
+                unhashable += 1
+            n += 2 + 2 * len(calls)
+            rep.distinct.add(('rich', rich_show(rs, ret)))
+            for key, what in decide_rich(rs, ret, calls):
+                rep.violation(key, what, {'kind': 'rich', 'sig': rs, 'ret': ret,
+                                          'calls': [[list(a), [list(kv) for kv in k]] for a, k in calls]})
+    rep.coverage['rich_text_signatures'] = nsig
+    rep.coverage['rich_text_signatures_unhashable'] = unhashable
+    return n
+
 # ---------------------------------------------------------------- universes
 def gen_sigs(ctx):
     rng = ctx.rng('sigs')
@@ -824,7 +1033,8 @@ def run(ctx, rep):
                 what = decide_chevron(ps, ret, op)
                 if what:
                     rep.violation('C20:chevron', what, {'kind': 'chevron', 'sig': ps, 'ret': ret, 'op': op})
-    rep.evaluations = n1 + n2 + n3 + n4
+    n5 = check_rich(ctx, rep, U2, U3)
+    rep.evaluations = n1 + n2 + n3 + n4 + n5
     # the recorded defect of func_from_sig (return annotations) is reported last
     for key, what, data in DEFERRED:
         rep.violation(key, what, data)
@@ -833,7 +1043,7 @@ def run(ctx, rep):
     rep.exhaustive = False
     rep.assumptions = [
         'a keyword naming a positional-only parameter alongside **kwargs is excluded from the binder decision (counted in coverage), not from the correspondence',
-        'annotation and default texts are integer literals; names are identifiers (the regular expression, str.split and the compiler are exercised, not modelled)',
+        'in the model annotation and default texts are integer literals; the real code is also run on texts ending in a parenthesis, unhashable values and classes (no comma, colon or = inside a text); names are identifiers',
         'modifiers.kwoargs spellings are only required for signatures without positional-only parameters',
     ]
 
@@ -879,6 +1089,10 @@ def replay(ctx, data):
         return decide_func_from_sig(_ps(r['sig']), r['ret'])
     if kind == 'chevron':
         return decide_chevron(_ps(r['sig']), r['ret'], r['op'])
+    if kind == 'rich':
+        calls = [(list(a), [tuple(kv) for kv in k]) for a, k in r['calls']]
+        res = decide_rich([list(x) for x in r['sig']], r['ret'], calls)
+        return res[0][1] if res else None
     return None
 
 
